@@ -131,6 +131,17 @@ func (c *ccComp) Gen(r *rand.Rand, tier string) []string {
 			}
 			seq = append(seq, fmt.Sprintf("windh %s %d %s", encPath(pA), nv(), encPath(q)))
 			added = append(added, pA)
+		case x < 70 && len(added) > 0:
+			// an add beneath (or above) something already added — usually rejected — and then a write to
+			// the path that was there first: an operation that fails must leave nothing behind
+			base := added[r.Intn(len(added))]
+			p := append(cloneStrs(base), ccLit(r, 2)...)
+			if r.Intn(4) == 0 && len(base) > 1 {
+				p = cloneStrs(base[:len(base)-1])
+			}
+			seq = append(seq, fmt.Sprintf("add %s %d", encPath(p), nv()))
+			seq = append(seq, fmt.Sprintf("add %s %d", encPath(base), nv()))
+			added = append(added, p)
 		case x < 78:
 			p := ccLit(r, 3)
 			added = append(added, p)
@@ -222,6 +233,25 @@ func (c *ccComp) Run(args []string) string {
 		c.t = &ctree.Tree{}
 		return "ok"
 	}
+	switch args[0] {
+	case "add", "del", "get", "walks":
+		// sequential operations on a small tree take microseconds: one that has not returned after the
+		// deadline is blocked for good (a lock left behind by an earlier operation) — the property
+		// promises the tree never deadlocks
+		res := make(chan string, 1)
+		go func() { res <- c.runSeq(args) }()
+		select {
+		case r := <-res:
+			return r
+		case <-time.After(scaled(3 * time.Second)):
+			c.t = &ctree.Tree{} // the old tree is lost to the blocked goroutine
+			return "deadlock"
+		}
+	}
+	return c.runSeq(args)
+}
+
+func (c *ccComp) runSeq(args []string) string {
 	switch args[0] {
 	case "add":
 		v, _ := strconv.Atoi(args[2])
